@@ -443,6 +443,9 @@ func (c *Catalog) AddType(
 	case notation.SchemaNotationRegex:
 		s, _ := coreUserTypes.Get(name)
 		es := newExchangeRegexSchema(s.(*regex.RSchema))
+		if err := es.Check(); err != nil {
+			return d.KeywordError(err.Error())
+		}
 		userType.Schema = es
 	case notation.SchemaNotationAny, notation.SchemaNotationEmpty:
 		userType.Schema = NewExchangePseudoSchema(typeNotation)
